@@ -65,5 +65,7 @@ def run(chk, tier):
                     chk.violation(ops[i] if len(ops[i]) < 200 else ops[i][:80],
                                   {"kind": "direct-oracle", "config": cn, "op": ops[i], "impl": impl[i],
                                    "oracle": "multi-block result differs from the per-block single-call result", "single": ref})
+    from . import fs32
+    fs32.run(chk, 16 if tier == "quick" else 600, oracle_native=False, roundtrip=False)   # fixslice32 2-block batches = per-block calls
     chk.assumptions.append("'nothing outside the designated output blocks is written' is observed through 96-byte canaries on "
                            "sampled shapes; the Lean model has lists, not addresses (partial, DESIGN §7 C04)")
